@@ -286,8 +286,40 @@ class Prop(object):
         pk, hashed = self._make(wire.subpacket(32, inner2))
         self._check(r, pk, hashed, {'sptype': 32, 'implemented': True, 'critical': False, 'inner': 'non-minimal'}, case, 'embedded signature with non-minimal inner encodings', flips=False)
         self._embedded_in_key(r, case)
+        self._header_octets_rsa(r, case)
         r.samples.append({'embedded': True})
         return r
+
+    def _header_octets_rsa(self, r, case):
+        """The public-key algorithm octet is part of the hashed header: RSA has three ids (1, and the deprecated 2 / 3) for one kind of key, so a
+        signature that says 3 is valid over an input with 3 in it, and changing the octet of an accepted signature must invalidate it."""
+        import pgpy
+        raw = K.raw('rsa2048a', K.T0)
+        pub = K.pgpy_secret(raw).pubkey
+        hashed = rsig.sp_created(SIG_T) + rsig.sp_issuer_fpr(rkeys.fingerprint(raw))
+        for made_with in (1, 3):
+            body = rsig.make(raw, 0x00, 8, hashed, rsig.sp_issuer(rkeys.keyid(raw)), {'doc': DOC}, pkalg=made_with)
+            for claimed in (1, 2, 3):
+                b = bytearray(body)
+                b[2] = claimed
+                r.states += 1
+                r.transitions += 1
+                label = 'RSA signature made with public-key algorithm octet %d, presented with octet %d' % (made_with, claimed)
+                try:
+                    s = pgpy.PGPSignature.from_blob(wire.packet(2, bytes(b)))
+                    ok = bool(pub.verify(DOC, s))
+                    hd = bytes(s.hashdata(DOC))
+                    oc = 'truthy' if ok else 'falsy'
+                except Exception as e:
+                    ok, hd, oc = False, None, 'error'
+                r.outcomes['algoctet:' + oc] += 1
+                if claimed == made_with:
+                    if not ok:
+                        r.viol('algoctet', {'what': 'valid-rejected', 'octet': claimed}, case, label + ': a valid signature does not verify (%s)' % oc)
+                    elif hd != rsig.hash_input(0x00, claimed, 8, hashed, {'doc': DOC}):
+                        r.viol('algoctet', {'what': 'hashdata', 'octet': claimed}, case, label + ': octets fed to the hash differ from the received header')
+                elif ok:
+                    r.viol('algoctet', {'what': 'bitflip', 'octet': claimed}, case, label + ': still verifies although the hashed header octet changed')
 
     def _embedded_in_key(self, r, case):
         """The primary-key binding (0x19) a signing subkey makes, carried inside the subkey binding of an imported certificate: its hashed area too is
